@@ -92,15 +92,36 @@ func TestVerifC07Dump(t *testing.T) {
 			}
 			fmt.Fprintf(&req, "%s: %s\r\n", variant(h), wire)
 		}
-		fmt.Fprintf(&req, "X-Harmless: visible%d\r\nContent-Length: 0\r\n\r\n", i)
+		// the body: none, complete, or one the server cannot read to its end (the dump is made after reading the body)
+		bodyKind := []string{"none", "none", "complete", "shorter-than-content-length", "bad-chunk-size", "chunked"}[rng.IntN(6)]
+		brokenBody := bodyKind == "shorter-than-content-length" || bodyKind == "bad-chunk-size"
+		switch bodyKind {
+		case "none":
+			fmt.Fprintf(&req, "X-Harmless: visible%d\r\nContent-Length: 0\r\n\r\n", i)
+		case "complete":
+			fmt.Fprintf(&req, "X-Harmless: visible%d\r\nContent-Length: 5\r\n\r\nhello", i)
+		case "shorter-than-content-length":
+			fmt.Fprintf(&req, "X-Harmless: visible%d\r\nContent-Length: 50\r\n\r\nhello", i)
+		case "bad-chunk-size":
+			fmt.Fprintf(&req, "X-Harmless: visible%d\r\nTransfer-Encoding: chunked\r\n\r\nZZ\r\nhello\r\n0\r\n\r\n", i)
+		default:
+			fmt.Fprintf(&req, "X-Harmless: visible%d\r\nTransfer-Encoding: chunked\r\n\r\n5\r\nhello\r\n0\r\n\r\n", i)
+		}
 		conn, err := net.Dial("tcp", fmt.Sprintf("127.0.0.1:%d", port))
 		if err != nil {
 			t.Fatal(err)
 		}
 		conn.SetDeadline(time.Now().Add(10 * time.Second)) //nolint:errcheck
 		conn.Write([]byte(req.String()))                   //nolint:errcheck
-		http.ReadResponse(bufio.NewReader(conn), nil)      //nolint:errcheck
+		if bodyKind == "shorter-than-content-length" {
+			conn.(*net.TCPConn).CloseWrite() //nolint:errcheck
+		}
+		http.ReadResponse(bufio.NewReader(conn), nil) //nolint:errcheck
 		conn.Close()
+		if brokenBody {
+			time.Sleep(20 * time.Millisecond) // the handler may log after the connection is gone
+		}
+		r.SetAdd("body_kinds", bodyKind)
 		lg.mu.Lock()
 		lines := append([]string(nil), lg.lines...)
 		lg.lines = nil
@@ -108,8 +129,12 @@ func TestVerifC07Dump(t *testing.T) {
 		dump := strings.Join(lines, "\n")
 		r.Eval(req.String())
 		if !strings.Contains(dump, fmt.Sprintf("visible%d", i)) {
-			r.Inconclusive("request %d was not dumped (no debug line captured)", i)
-			continue
+			if brokenBody {
+				r.Count("requests_with_unreadable_body_not_dumped", 1) // nothing is logged: nothing can leak
+			} else {
+				r.Inconclusive("request %d was not dumped (no debug line captured)", i)
+				continue
+			}
 		}
 		for _, cn := range canaries {
 			if strings.Contains(dump, cn) {
@@ -121,6 +146,6 @@ func TestVerifC07Dump(t *testing.T) {
 			r.Sample(map[string]any{"request": req.String(), "dump": dump})
 		}
 	}
-	r.Finish("raw HTTP/1.1 requests sent over TCP to the real httpp.Server with a capturing logger: 1..4 credential headers (Authorization, Proxy-Authorization, Cookie, Set-Cookie, X-Api-Key, X-Auth-Token) spelled in lower / upper / mixed / canonical case, several per request, carrying unique canaries (Bearer, Basic, cookies); the dump must contain the harmless marker header and none of the canaries (nor the Basic base64). non-trivial = distinct request",
+	r.Finish("raw HTTP/1.1 requests sent over TCP to the real httpp.Server with a capturing logger: 1..4 credential headers (Authorization, Proxy-Authorization, Cookie, Set-Cookie, X-Api-Key, X-Auth-Token) spelled in lower / upper / mixed / canonical case, several per request, carrying unique canaries (Bearer, Basic, cookies), without body, with a complete body (Content-Length or chunked) or with a body the server cannot read to its end (shorter than Content-Length then close, malformed chunk size); the dump must contain the harmless marker header (unless the body was unreadable) and whatever is logged contains none of the canaries (nor the Basic base64). non-trivial = distinct request",
 		"only header values are judged (the statement does not cover query strings or bodies)")
 }
